@@ -106,7 +106,7 @@ class Result:
 
 def _state_diff(A, ren, sa, sb):
     out = []
-    for k in A.ground_fluents:
+    for k in getattr(A, "compared_fluents", A.ground_fluents):
         kb = ren.key(k)
         va = sa.get(k, "undef")
         vb = sb.get(kb, "undef")
@@ -124,10 +124,15 @@ def _metric(P, states, steps):
 
 
 def compare(spec_a, spec_b, ren=None, depth=2, plan_k=0, max_states=400, check_goal=True,
-            check_metric=True):
+            check_metric=True, ignore_fluents=()):
+    """ignore_fluents: fluent names of A that are bookkeeping only (e.g. a reader's `total-cost`
+    when the other side turned it into action costs): not compared state by state; the metric
+    comparison on all plans <= plan_k covers their meaning."""
     ren = ren or Renaming()
     res = Result()
     A, B = RefProblem(spec_a), RefProblem(spec_b)
+    if ignore_fluents:
+        A.compared_fluents = [k for k in A.ground_fluents if k[0] not in ignore_fluents]
 
     # ---- static part --------------------------------------------------------------
     for t in A.types:
@@ -141,7 +146,7 @@ def compare(spec_a, spec_b, ren=None, depth=2, plan_k=0, max_states=400, check_g
         if oa != ob:
             res.diff("objects", "objects of type %r: A->%s B=%s" % (t, oa, ob), {"type": t})
     gfb = set(B.ground_fluents)
-    for k in A.ground_fluents:
+    for k in getattr(A, "compared_fluents", A.ground_fluents):
         if ren.key(k) not in gfb:
             res.diff("fluents", "ground fluent %r (-> %r) missing in B" % (k, ren.key(k)), {"fluent": list(k)})
             break
